@@ -941,6 +941,35 @@ func replayReal(bi int, beh []mbt.Step, in *mbt.Input, res *mbt.Result) {
 			if w := c.worker(s.Int("w")); w != nil && w.alive() {
 				c.kill(w, s.Str("mode") == "hang")
 			}
+		case "killmember", "stopmember": // strike the worker of the first operator of whatever assembly runs now
+			v := c.view()
+			if len(v.asmOps) > 0 {
+				if w := c.opWorker(v.asmOps[0]); w != nil && w.alive() {
+					if s.Str("a") == "killmember" {
+						c.kill(w, s.Str("mode") == "hang")
+					} else {
+						c.stop(w)
+						c.fence()
+					}
+				}
+			}
+		case "tickpending": // leave a checkpoint of the running assembly in progress (its first operator's ack is held)
+			v := c.view()
+			if len(v.asmOps) == 0 {
+				break
+			}
+			w := c.opWorker(v.asmOps[0])
+			key := fmt.Sprintf("opack:%d", w.i)
+			c.setHold(key, true)
+			from := c.ev.len()
+			if had, ret := c.clock.tickTimeout("checkpointing", waitLong); !had || !ret {
+				res.Errors = append(res.Errors, fmt.Sprintf("behaviour %d step %d: checkpoint tick before the fault: had=%v returned=%v", bi, si, had, ret))
+				return
+			}
+			if !c.waitEv(from, waitLong, func(x ev) bool { return x.Kind == "parked" && x.Msg == key }) {
+				res.Errors = append(res.Errors, fmt.Sprintf("behaviour %d step %d: nothing parked at %s: %s", bi, si, key, c.tail(25)))
+				return
+			}
 		case "stop":
 			if w := c.worker(s.Int("w")); w != nil && w.alive() {
 				c.stop(w)
